@@ -298,7 +298,17 @@ func randomOtherFlags(r *gen.R, keep ...slog.Flags) []string {
 func doomedRecord(f Format, w io.Writer) {
 	defer func() { _ = recover() }()
 	lg := newRoot("doomed", f, w, slog.AlwaysLevel)
-	lg.Info("doomed", "aa-doomed", 1, "req-doomed", slog.NewGroupedAttrEasy("inner", "user", panicky{}), "zz-doomed", 2)
+	lg.Info("doomed", "aa-doomed", 1, "req-doomed", slog.NewGroupedAttrEasy("inner", "user", &panicOnce{}), "zz-doomed", 2)
+}
+
+// panicOnce panics the first time it is formatted and prints normally afterwards.
+type panicOnce struct{ n int }
+
+func (p *panicOnce) String() string {
+	if p.n++; p.n == 1 {
+		panic("value that panics while being formatted")
+	}
+	return "second-time"
 }
 
 // randomTimestampOptions gives the logger, in about a third of the cases, a timestamp layout of its own and/or a zone
